@@ -1,5 +1,5 @@
 (* C14 command table.  Packets travel as tokens:
-   K:<primary>:<public>:<cansign>:<label>   U:<isuid>:<content id>   T   O:<sigtag>:<id>   OK:<id> (opaque PRIMARY key packet)
+   K:<primary>:<public>:<cansign>:<label>   U:<isuid>:<content id>   T   O:<sigtag>:<id>   OK:<id> (opaque PRIMARY key packet)   X:<id> (a packet that is no part of a key: marker / literal)
    S:<serial>:<issuer>:<type>:<created>:<exp n|0|1>:<primary>[:E,<serial>,<issuer>,<type>,<created>,<exp>]*      *)
 let zi s = z_of_int (int_of_string s)
 let bo s = (s = "1")
@@ -21,6 +21,7 @@ let packet_of tok =
   | ["T"] -> PTrust
   | ["O"; st; id] -> POpaque (bo st, zi id)
   | ["OK"; id] -> POpaqueKey (zi id)
+  | ["X"; id] -> PStray (zi id)
   | _ -> failwith ("token " ^ tok)
 
 let serial c = match c.c_info with x :: _ -> zs x | [] -> "?"
@@ -38,6 +39,7 @@ let pkt_s = function
   | PTrust -> "T"
   | POpaque (_, id) -> "O" ^ zs id
   | POpaqueKey id -> "OK" ^ zs id
+  | PStray id -> "X" ^ zs id
 let export_s ps = let s = String.concat "," (List.map pkt_s ps) in if s = "" then "-" else s
 let res_s f = function
   | Ok ks -> if ks = [] then "EMPTY" else String.concat " " (List.map f ks)
@@ -56,6 +58,7 @@ let () = run_table [
   "import_f9", (fun toks -> res_s (fun k -> key_s k ^ "|" ^ export_s (export k) ^ "|" ^ export_s (export (copy_prefix k))) (import_prefix_f9 (List.map packet_of toks)));
   "import_dup", (fun toks -> res_s (fun k -> key_s k) (import_prefix_dup (List.map packet_of toks)));
   "import_oldself", (fun toks -> res_s (fun k -> key_s k ^ "|" ^ export_s (export k)) (import_old_selfsig (List.map packet_of toks)));
+  "import_orph", (fun toks -> res_s (fun k -> key_s k) (import_pre_orphanfix (List.map packet_of toks)));
   "import_bf7", (fun toks -> res_s (fun k -> key_s k) (import_pre_bf7 (List.map packet_of toks)));
   "import_f2", (fun toks -> res_s (fun k -> key_s k ^ "|" ^ export_s (export k)) (import_prefix_f2 (List.map packet_of toks)));
   "add", (function [a; b] -> zs (Z.add (zi a) (zi b)) | _ -> failwith "args");
